@@ -200,6 +200,12 @@ def lambda_scope_programs():
         out.append("fn apply(f: fn(v: int) -> int, v: int) -> int { f(v) } fn main() { let x = 1; " + opener +
                    " let inc = fn(v: int) -> int { let x = v + 1; x }; { let x = 2; let y = 5; println(inc(10)); println(x, y); "
                    "{ let x = 3; let z = 7; println(apply(inc, 20)); println(x, y, z); } println(x, y); } println(inc(0), x); " + closer + " println(x); }")
+    # parameters of a function literal are passed by value: assigning to a parameter never reaches the caller's variable
+    # (scalars, strings, the list / object VARIABLE itself; the shared list and object contents are written through)
+    out.append('fn main() { let f = fn(x: int) -> null { x = 5; }; let a = 1; f(a); println(a); let l = [1]; let g = fn(m: [int]) { m.push(2); m = [9]; }; g(l); println(l); '
+               'let o = new { k: 1 }; let h = fn(p: { k: int }, s: str) { p.k = 7; s = "z"; }; let t = "s"; h(o, t); println(o, t); '
+               'let c = 0; let bump = fn(n: int) -> int { n += 1; n }; println(bump(c), c, bump(c), c); let fl = 1.5; let neg = fn(v: float, b: bool) { v = 0.0 - v; b = !b; }; let tb = true; neg(fl, tb); println(fl, tb); }')
+    out.append('fn named(x: int, m: [int]) { x = 5; m = [0]; }\nfn main() { let a = 1; let l = [1]; named(a, l); println(a, l); let w = fn(q: int) { named(q, [q]); q = 9; }; w(a); println(a); for i in 0..2 { let k = fn(j: int) { j += 10; }; k(i); println(i); } }')
     return out
 
 
